@@ -26,7 +26,7 @@ Relevant(c, api) ==
       like == (IF Has(p, PCT) \/ Has(p, USC) THEN {TagWild} ELSE {})
               \cup (IF Has(p, UPA) \/ Has(p, LOA) THEN {TagCase} ELSE {})
       dlm == Len(c.delim) > 0
-  IN IF api \in {"v1", "v2"} \/ c.kind = "objects" THEN like \cup (IF dlm THEN {TagObjDelim} ELSE {})
+  IN IF api \in HttpObjApis \/ c.kind = "objects" THEN like \cup (IF dlm THEN {TagObjDelim} ELSE {})
      ELSE CASE c.kind = "versions" -> like \cup {TagNull}
             [] c.kind = "uploads"  -> like \cup (IF dlm THEN {TagUplDelim} ELSE {})
             [] c.kind = "parts"    -> {}
